@@ -519,7 +519,7 @@ impl Avp {
     pub fn encode_to<W: Write>(&self, writer: &mut W) -> Result<()> {
         self.header.encode_to(writer)?;
 
-        let _ = match &self.value {
+        match &self.value {
             AvpValue::Address(avp) => avp.encode_to(writer),
             AvpValue::AddressIPv4(avp) => avp.encode_to(writer),
             AvpValue::AddressIPv6(avp) => avp.encode_to(writer),
@@ -536,7 +536,7 @@ impl Avp {
             AvpValue::DiameterURI(avp) => avp.encode_to(writer),
             AvpValue::Time(avp) => avp.encode_to(writer),
             AvpValue::Grouped(avp) => avp.encode_to(writer),
-        };
+        }?;
 
         // Padding
         for _ in 0..self.padding {
